@@ -140,7 +140,7 @@ theorem trailersF_sub (k : Knot) (e : PyExpr) (r : List Tok) :
       | .op [']'] :: r2 =>
           match y.1.1, y.1.2 with
           | [], _ => none
-          | [x], false => k.trailers (.subscript e x) r2
+          | [x], false => if isStar x then k.trailers (.subscript e (.tuple [x])) r2 else k.trailers (.subscript e x) r2
           | _, _ => k.trailers (.subscript e (.tuple y.1.1)) r2
       | _ => none := rfl
 
@@ -163,7 +163,13 @@ theorem goal_subscript (v s : PyExpr) (gv : ExprGoal v) (hs : SliceGoal s) : Exp
         (by simpa [itemF] using hsl) (by decide)
       simpa using this
     rw [this]
-    simp [tRB]
+    have hns : isStar s = false := by
+      rcases hs with ⟨_, gs⟩ | ⟨l, u, st, rfl, _⟩
+      · cases s with
+        | starred x => have := gs.head; simp [gen, headOK, atomStart, tStar] at this
+        | _ => rfl
+      · rfl
+    simp [tRB, hns]
   · rw [hg]; exact headOK_append _ gv.head
   · intro rest _
     rw [hg, List.append_assoc]
